@@ -289,12 +289,24 @@ def rewrite_source_rule(ctx, P):
                 def on_ev(e2, facts, text=text):
                     if e2.k == 'store':
                         l0 = show(strip_casts(e2.store_parts()[0]))
-                        if l0 == text or l0.startswith(text + '.') or l0.startswith(text + '->'):
+                        alt = text[1:] if text.startswith('*') else None      # *p  is also reached as  p->field
+                        if l0 == text or l0.startswith(text + '.') or l0.startswith(text + '->') or (alt and l0.startswith(alt + '->')):
                             return 'stop'
                     if e2.k == 'ret':
-                        return 'target'
+                        # an error return: the open fails, there is no second view of the file to compare with
+                        return 'target' if ret_class(fn, e2, facts) in ('zero', 'unknown') else 'stop'
                     return None
-                w = find_path(fn, c, on_ev, refine=False)
+                # `if (X.offset == p->offset)`: on the other edge X is not the cached object, nothing has to be refreshed
+                def same_object_edge(b_, s_, lab, text=text):
+                    c_ = strip_casts(b_.cond) if b_.cond is not None else None
+                    if c_ is None or c_.get('op') != 'bin' or c_['o'] not in ('==', '!='):
+                        return True
+                    sides = [show(strip_casts(k_)) for k_ in c_['k']]
+                    alt = text[1:] if text.startswith('*') else text
+                    if ('%s.offset' % X) in sides and any(x_ in (alt + '->offset', text + '.offset', '(' + text + ').offset') for x_ in sides):
+                        return lab == ('T' if c_['o'] == '==' else 'F')
+                    return True
+                w = find_path(fn, c, on_ev, edge_ok=same_object_edge)
                 if w is not None:
                     bad = (text, w)
                     break
